@@ -112,8 +112,10 @@ def strategy(tier: str):
 
 def enumerate_cases(tier: str):
     for version in VERSIONS:
-        for warm in ("1;1;1;0;2;1\n", "1;1;2;0;2;\n", "1;1;0;0;3;relay\n", "1;255;3;0;0;55\n", "1;255;0;0;17;2.0\n", "1;255;4;0;0;ff\n", "junk\n"):
-            for line in ("1;5;3;0;3;\n", "255;0;3;0;4;7\n", "1;255;3;0;3;\n", "1;5;3;0;5;\n", "1;255;1;0;2;1\n", "1;5;4;0;3;ff\n", "7;5;1;0;2;1\n"):
+        for warm in ("1;1;1;0;2;1\n", "1;1;2;0;2;\n", "1;1;0;0;3;relay\n", "1;255;3;0;0;55\n", "1;255;0;0;17;2.0\n", "1;255;4;0;0;ff\n", "junk\n",
+                     "1;5;3;0;3;\n", "1;5;3;0;4;7\n", "1;5;3;1;3;\n", "1;5;1;0;2;1\n", "1;255;3;0;3;\n"):
+            for line in ("1;5;3;0;3;\n", "255;0;3;0;4;7\n", "1;255;3;0;3;\n", "1;5;3;0;5;\n", "1;255;1;0;2;1\n", "1;5;4;0;3;ff\n", "7;5;1;0;2;1\n",
+                         "1;5;3;0;0;87\n", "1;5;3;1;9;log\n", "1;5;3;0;2;2.2\n", "1;5;4;0;0;ff\n", "1;255;2;0;2;\n", "1;5;3;1;4;9\n"):
                 yield {"version": version, "line": line, "warmup": [warm, warm]}
     for version in VERSIONS:
         for size in (65530, 65537, 70000, 300000):
